@@ -45,7 +45,10 @@ see the comments on each template."""
 from vlib import Prop
 
 VMAX = 2**62 - 1
-H3_CODES = [0x100, 0x101, 0x102, 0x10b, 0x10c, 0x10d, 0x110]
+H3_CODES = list(range(0x100, 0x111))     # every code RFC 9114 section 8.1 defines: H3_NO_ERROR ... H3_VERSION_FALLBACK
+QPACK_CODES = [0x200, 0x201, 0x202]      # RFC 9204 section 6
+POOL = H3_CODES + QPACK_CODES
+H3_NO_ERROR = 0x100
 
 
 def enc_len(n):
@@ -66,8 +69,11 @@ class Gen:
         self.big = big
 
     def code(self):
+        """a stop / reset / close code: the edges of the varint range, the codes HTTP/3 and QPACK define (the
+        ones real peers send; H3_NO_ERROR, the one that does not sound like an error, more often), random ones"""
         r = self.rng
-        return r.choice([0, 1, VMAX, r.choice(H3_CODES), r.getrandbits(r.choice([8, 16, 32, 62])), r.randrange(2**61, 2**62)])
+        return r.choice([0, 1, VMAX, H3_NO_ERROR, r.choice(POOL), r.choice(POOL),
+                         r.getrandbits(r.choice([8, 16, 32, 62])), r.randrange(2**61, 2**62)])
 
     def seed(self):
         return self.rng.randrange(0, 2**32)
@@ -214,11 +220,13 @@ class Gen:
             ops += ["stop:%d" % self.code(), "pd1", "rid"]
         return self.line(cfg, ops)
 
-    def t_reset(self):
+    def t_reset(self, c=None):
         """the peer resets its sending side with an arbitrary code, after all queued data (`prst`) or in
-        the middle of a write blocked on flow control (`prstnow`)."""
+        the middle of a write blocked on flow control (`prstnow`).  The reset surfaces ONCE, on the first
+        read that meets it; what Quinn answers to reads after that (`Ok(None)`: `pd1=end`) is Quinn's and the
+        specification has no opinion on it (reading R-17, observation (b))."""
         r = self.rng
-        c = self.code()
+        c = self.code() if c is None else c
         now = r.random() < 0.5
         sw = r.choice([1, 16, 1000]) if now else r.choice([0, 16, 1000])
         cfg, shape = self.cfg(recv=True, sw=sw, need_peer_send=True)
@@ -232,24 +240,26 @@ class Gen:
                 ops += ["pw:%d:%d" % (r.choice([1, 10, 3000, 70000]), self.seed())]
             ops += ["prst:%d" % c]
         ops += ["rdall", "rid", "pd1", "rid"]
+        if r.random() < 0.4:
+            ops += ["pd", "rid"]
         return self.line(cfg, ops)
 
-    def t_stop(self):
+    def t_stop(self, c=None, w=None, f=None):
         """the peer stops reading with an arbitrary code while a write is blocked on flow control."""
         r = self.rng
-        c = self.code()
-        w = r.choice([1, 7, 16, 64, 1000])
+        c = self.code() if c is None else c
+        w = r.choice([1, 7, 16, 64, 1000]) if w is None else w
         cfg, shape = self.cfg(send=True, sw=w, cw=r.choice([0, w * 2]))
         n = w + r.choice([1, 100, 70000])
-        ops = ["sd:%s:%d:%d" % (r.choice("DH"), n, self.seed()), "pr1"] + self.idq(shape)
+        ops = ["sd:%s:%d:%d" % (f or r.choice("DH"), n, self.seed()), "pr1"] + self.idq(shape)
         ops += ["pstop:%d" % c, "pr", "sid", "sd:D:1:1", "pr1", "pr", "fin", "sid"]
         return self.line(cfg, ops)
 
-    def t_close(self):
+    def t_close(self, c=None):
         """the peer closes the connection with an arbitrary application code while a write is blocked
         and/or a read is pending."""
         r = self.rng
-        c = self.code()
+        c = self.code() if c is None else c
         mode = r.choice(["both", "read", "write"])
         w = r.choice([1, 16, 1000])
         if mode == "read":
@@ -310,13 +320,13 @@ class Gen:
             ops = ["rid", "stop:%d" % r.choice([2**62, 2**63, 2**64 - 1]), "rid", "pd1", "rid"]
         return self.line(cfg, ops)
 
-    def t_stop_pending(self):
+    def t_stop_pending(self, c=None):
         """stop_sending while the read future owns the stream: remembered, applied when the stream comes
         back (the last code wins), never applied when the receive half is dropped first (the peer then
         sees Quinn's implicit STOP_SENDING(0))."""
         r = self.rng
         cfg, shape = self.cfg(recv=True, need_peer_send=True)
-        c1, c2 = self.code(), self.code()
+        c1, c2 = (self.code() if c is None else c), self.code()
         ops = self.announce(shape) + [r.choice(["pd1", "pdc"]), "rid", "stop:%d" % c1]
         if r.random() < 0.4:
             ops += ["stop:%d" % c2]
@@ -329,6 +339,88 @@ class Gen:
         else:
             ops += ["pw:%d:%d" % (r.choice([1, 3, 8]), self.seed()), "rdall", "rid"]
         return self.line(cfg, ops)
+
+    def t_stop_states(self, c=None, state=None):
+        """stop_sending(c) in every read state, and the peer's writer asked what it was told (`pstopped`) BEFORE
+        the adapter side starts another read.  Reading R-17: once the adapter has the Quinn stream in its hands
+        - at the call when no read is in flight (never read / after data), otherwise when the read in flight
+        (pending, or started and abandoned by the caller) completes - the peer must see STOP_SENDING with
+        exactly c, also when the receive half is dropped right after.  `lost-*`: the read never completes; the
+        remembered code is lost (Quinn's implicit 0 once the half is dropped, nothing while it lives): observed,
+        modelled, not demanded."""
+        r = self.rng
+        c = self.code() if c is None else c
+        cfg, shape = self.cfg(recv=True, need_peer_send=True)
+        ops = self.announce(shape)
+        state = state or r.choice(["idle", "after-data", "in-flight", "in-flight", "cancelled", "cancelled",
+                                   "polled-again", "two-codes", "drop-after", "rdall", "lost-drop"])
+        pw = lambda: "pw:%d:%d" % (r.choice([1, 3, 8, 700]), self.seed())
+        stop = "stop:%d" % c
+        if state == "idle":
+            ops += ["rid", stop, "rid", "pstopped"]
+        elif state == "after-data":
+            ops += [pw(), "pd", "rid", stop, "rid", "pstopped", "pd1"]
+        elif state in ("in-flight", "cancelled"):
+            ops += ["pd1" if state == "in-flight" else "pdc", "rid", stop, "rid", pw(), "pd", "pstopped", "rid"]
+            if r.random() < 0.5:
+                ops += ["pd1", "rid"]
+        elif state == "polled-again":
+            ops += [r.choice(["pd1", "pdc"]), stop, r.choice(["pd1", "pdc"]), "rid", r.choice(["pd1", "pdc"]), pw(), "pd",
+                    "pstopped"]
+        elif state == "two-codes":
+            # of two stops during one pending read either code is accepted (the adapter issues the last one)
+            ops += [r.choice(["pd1", "pdc"]), stop, "stop:%d" % self.code(), "rid", pw(), "pd", "stop:%d" % self.code(),
+                    "pstopped"]
+        elif state == "drop-after":
+            ops += [r.choice(["pd1", "pdc"]), stop, pw(), "pd", "dropr", "pstopped"]
+        elif state == "rdall":
+            ops += [r.choice(["pd1", "pdc"]), stop, pw(), "rdall", "pstopped", "rid"]
+        elif state == "lost-drop":
+            ops += [r.choice(["pd1", "pdc"]), "rid", stop, "rid", "dropr", "pstopped"]
+        else:   # lost-alive: 5 s of waiting for nothing; thorough tier only
+            ops += ["pd1", stop, "rid", "pstopped"]
+        return self.line(cfg, ops)
+
+    def t_conn_failed(self, how, c=None, shape=None):
+        """audit leftover C17-3: EVERY accept / open call site of the adapter (poll_accept_bidi, poll_accept_recv,
+        poll_open_bidi / poll_open_send of the Connection, of `opener()` and of a clone of it), polled once and
+        awaited, after the connection has failed - peer close with code c, idle timeout, own close through an
+        opener (or the Connection) - on a given connection shape.  The failure is made known by a call that WAITS
+        for it (an awaited accept), not by a pause: from then on Quinn answers every open / accept with the
+        connection's error at once, so the rest of the line does not depend on timing.  Demanded: peer close =>
+        ApplicationClose{c} at every site (inside StreamErrorIncoming::ConnectionErrorIncoming on the open paths),
+        idle timeout => Timeout; a close of the adapter side's own making (LocallyClosed => Undefined) is none of
+        the property's four conditions: compared with the model only."""
+        r = self.rng
+        c = self.code() if c is None else c
+        role, kind, d = shape or r.choice([(a, b, e) for a in "cs" for b in ("bi", "uni") for e in ("open", "acc")])
+        parts = ["role=" + role, "kind=" + kind, "dir=" + d]
+        skip = r.choice([0, 0, 1, 3])
+        if skip:
+            parts.append("skip=%d" % skip)
+        if how == "idle":
+            parts.append("idle=%d" % r.choice([300, 400]))
+        if kind == "bi" and r.random() < 0.3:
+            parts.append("split=0")
+        ops = []
+        if how == "pclose":
+            ops += ["pclose:%d" % c, r.choice(["ab", "ar"])]
+        elif how == "idle":
+            ops += [r.choice(["ab", "ar"])]
+        elif how == "oclose":
+            ops += ["oclose:%s:%d:%s" % (self.who(), c, self.reason()), "pclosedr"]
+        else:
+            ops += ["aclose:%d" % c, "pclosed"]
+        tail = ["ob1:c", "ob1:o", "ob1:k", "ou1:c", "ou1:o", "ou1:k", "ab1", "ar1",
+                "ob:c", "ob:o", "ob:k", "ou:c", "ou:o", "ou:k", "ab", "ar"]
+        r.shuffle(tail)
+        ops += tail
+        # the stream under test, where it has that half: the same condition through poll_data / poll_ready
+        if kind == "bi" or d == "acc":
+            ops += [r.choice(["pd1", "pd"]), "rid"]
+        if kind == "bi" or d == "open":
+            ops += ["sd:D:1:1", "pr1", "sid"]
+        return "quinn %s %s" % (",".join(parts), " ".join(ops))
 
     # ------------------------------------------------------------------ templates, second part
 
@@ -413,10 +505,13 @@ class Gen:
         arrived = []
         if how != "idle" and r.random() < 0.5:
             arrived = [r.choice(["pob", "pou"]) for _ in range(r.randrange(1, 3))]
-            ops += arrived + ["settle:30"]
+            # no pause but a barrier: a datagram the peer sends AFTER it opened the streams; once the adapter side has
+            # read it, the streams have arrived too (a pause of 30 ms was not enough on a machine other builds keep busy)
+            ops += arrived + ["pdgs:1:%d" % self.seed(), "dgr"]
         if how == "pclose":
-            # something that waits makes the close known (an open would succeed at once)
-            ops += ["pclose:%d" % c, r.choice(["ab", "ar", "dgr", "settle:40"])] if not arrived else ["pclose:%d" % c, "settle:40"]
+            # something that WAITS makes the close known (an open would succeed at once; an accept would take an
+            # arrived stream first): an awaited accept, or an awaited datagram read when streams are waiting
+            ops += ["pclose:%d" % c, r.choice(["ab", "ar", "dgr"])] if not arrived else ["pclose:%d" % c, "dgr"]
         elif how == "idle":
             ops += [r.choice(["ab", "ar", "dgr"])]
         elif how == "oclose":
@@ -511,12 +606,12 @@ class Gen:
         ops += ["pbg", "pr", "psall", "fin", "pjoin"]
         return self.line(cfg, ops)
 
-    def t_unframed_err(self):
+    def t_unframed_err(self, c=None, how=None):
         """what poll_send reports when the write fails: the peer's stop (code preserved), the peer's close
         (code preserved), the idle timeout, and the conditions of the adapter side's own making."""
         r = self.rng
-        how = r.choice(["pstop", "pstop", "pclose", "pclose", "idle", "aclose", "fin", "rst"])
-        c = self.code()
+        how = how or r.choice(["pstop", "pstop", "pclose", "pclose", "idle", "aclose", "fin", "rst"])
+        c = self.code() if c is None else c
         w = r.choice([1, 7, 16, 64, 1000])
         n = w + r.choice([1, 100, 70000])
         if how in ("pstop", "pclose", "idle"):
@@ -628,7 +723,10 @@ class C17(Prop):
                   "against every script: accepted bytes in order, each once, the caller's Buf (any chunking) advanced by exactly what "
                   "was accepted and reported, error last, refused (not a panic, D-17b repaired) while a framed write is unfinished; "
                   "the receive ownership machine over every operation sequence: recv_id = creation id, never panics, a stop during a "
-                  "pending read is issued exactly once; the unsplit BidiStream only delegates: ids constant before and after split, "
+                  "pending read is issued exactly once, and - against a specification written from the caller's side (StopSpec, "
+                  "reading R-17) - the first stop Quinn is given carries a code that is DUE (asked with no read in flight, or the "
+                  "read in flight has completed since) as soon as it is due, never one that was not asked; the unsplit BidiStream "
+                  "only delegates: ids constant before and after split, "
                   "split yields the halves the same operations would have produced; opening through Connection / opener() / a clone "
                   "hands out exactly the streams Quinn created, in order, each once, both halves under Quinn's id, errors as "
                   "ConnectionErrorIncoming; close passes exactly (code, reason); the five error conversions as TOTAL finite tables "
@@ -648,7 +746,10 @@ class C17(Prop):
                   "tables: ConnectionError::CidsExhausted, ReadError::ClosedStream (every path that retires the stream also sets "
                   "Quinn's all_data_read), ReadError::IllegalOrderedRead (the adapter only reads ordered: the panic arm is dead code)")
     rule = ("cases: scenario templates write-fidelity / refusal / truncating finish / ids / read-state ids / peer reset / peer stop / "
-            "peer close / idle timeout / local conditions / stop during pending read; second part: unframed fidelity / unframed "
+            "peer close / idle timeout / local conditions / stop during pending read / stop_sending in every read state with the "
+            "peer asked before the next read / every HTTP/3 (0x100-0x110) and QPACK (0x200-0x202) code through every condition that "
+            "carries a code / every accept and open call site (Connection, opener(), clone; polled once and awaited) after peer "
+            "close, idle timeout and own close on every connection shape; second part: unframed fidelity / unframed "
             "partial writes / poll_send guard / poll_send errors / opening under stream limits / open+accept after failure / "
             "close(code, reason) / accepting / datagrams / special handshakes (rej kill z0 z0r z0t z0v); the bidirectional stream "
             "under test is left unsplit in about a third of the cases; parameters from the seeded PRNG; "
@@ -657,12 +758,17 @@ class C17(Prop):
             "counted (NOTE line)")
     trusted = ["quinn 0.11 / quinn-proto / rustls / tokio / loopback UDP (observed, not modelled)",
                "the environment assumptions about Quinn in lean/H3/Drv/C17.lean (window budget, which Quinn error a peer action "
-               "raises, first stop wins, implicit STOP_SENDING(0) on drop, RFC 9000 stream numbering, stream credit = "
+               "raises, first stop wins, implicit STOP_SENDING(0) on drop, a reset is reported once and reads after it answer the "
+               "end, RFC 9000 stream numbering, stream credit = "
                "max_concurrent + streams the peer finished with, announced when it exceeds 1/8 of max_concurrent, arrived streams "
                "and datagrams are handed out before the connection's error, a rejected 0-RTT attempt is forgotten), each "
                "exercised by the correspondence run",
                "loopback UDP does not lose the (unretransmitted) datagrams of the datagram scenarios"]
-    assumptions = ["the caller's Buf yields its bytes chunk by chunk (list of chunks)",
+    assumptions = ["reading R-17 (DESIGN.md section 9): the sentence on errors speaks about conditions the peer / the transport raise "
+                   "and h3 is told; that the code of the adapter side's own stop_sending reaches the peer is demanded as the adapter's "
+                   "documented behaviour (pending_stop) where the stream is or comes back in hand, not where the read in flight "
+                   "never completes; a condition surfaces on the first call that meets it",
+                   "the caller's Buf yields its bytes chunk by chunk (list of chunks)",
                    "poll_write accepts at most the bytes it is offered",
                    "the h3::quic call pattern: poll_ready is driven to Ready before poll_finish (a finish with an unfinished "
                    "buffer truncates it: modelled and observed, outside the property's quantifier)"]
@@ -714,6 +820,38 @@ class C17(Prop):
             L.append(g.t_local())
         for _ in range(36 * m):
             L.append(g.t_stop_pending())
+        # stop_sending in every read state, the peer asked before the next read starts (reading R-17)
+        for st in ("idle", "after-data", "in-flight", "cancelled", "polled-again", "two-codes", "drop-after", "rdall", "lost-drop"):
+            for _ in range(2 * m):
+                L.append(g.t_stop_states(state=st))
+        for _ in range(20 * m):
+            L.append(g.t_stop_states())
+        if big:
+            L.append(g.t_stop_states(state="lost-alive"))
+        # every code HTTP/3 and QPACK define, through every condition that carries a code (peer stop / reset / close
+        # on the framed, the unframed, the read, the accept and the open paths, own stop_sending towards the peer)
+        for c in POOL:
+            L.append(g.t_stop(c))
+            L.append(g.t_reset(c))
+            L.append(g.t_close(c))
+            L.append(g.t_unframed_err(c, how=rng.choice(["pstop", "pclose"])))
+            L.append(g.t_stop_states(c, state=rng.choice(["idle", "after-data", "in-flight", "cancelled"])))
+            L.append(g.t_conn_failed("pclose", c))
+        # H3_NO_ERROR, the code a "helpful" adapter is most tempted to treat as success: every window, both frame kinds
+        for w in (1, 7, 16, 64, 1000):
+            for f in "DHDH":
+                L.append(g.t_stop(H3_NO_ERROR, w=w, f=f))
+            L.append(g.t_unframed_err(H3_NO_ERROR, how="pstop"))
+        # audit leftover C17-3: every accept / open call site after the connection failed, on every connection shape
+        for role in "cs":
+            for kind in ("bi", "uni"):
+                for d in ("open", "acc"):
+                    for how in ("pclose", "idle", "oclose"):
+                        L.append(g.t_conn_failed(how, shape=(role, kind, d)))
+        for _ in range(4 * m):
+            L.append(g.t_conn_failed("aclose"))
+        for _ in range(8 * (m - 1)):
+            L.append(g.t_conn_failed(rng.choice(["pclose", "idle", "oclose"])))
         # ---- second part
         # the unframed path: every size x a tiny, a middle and the default window setting
         for n in all_sizes:
@@ -747,6 +885,7 @@ class C17(Prop):
         return L
 
     retries = 0
+    shrink_budget = 60   # seconds per failing case: an attempt that waits for something that never comes takes seconds
 
     def project_all(self, lines, impls):
         """the engine marks a case it had to run twice (a timeout the first time) with ` #retry`"""
@@ -804,9 +943,23 @@ class C17(Prop):
         w = line.split()
         out = []
         ops = w[2:]
+        kv = w[1].split(",")
+        # a candidate must stay a complete scenario: on a bidirectional stream the adapter side opened, the raw peer
+        # can write / reset / be asked what it was told only after it has LEARNT of the stream, i.e. after the
+        # announcing write (`pbg`, `w:…` in front); without it `pw` never happens and the line fails for a reason of
+        # its own (the shrinker once walked `… pbg w:D:5:1 pd1 stop:1 pw:1:1 pd pstopped` into `… pbg pd1 stop:1 …`)
+        keep = set()
+        if "kind=uni" not in kv and "dir=acc" not in kv and any(o.split(":")[0] in ("pw", "pfin", "prst", "prstnow", "pstopped")
+                                                              for o in ops):
+            for name in ("pbg", "w"):
+                for i, o in enumerate(ops):
+                    if o.split(":")[0] == name:
+                        keep.add(i)
+                        break
         # drop one op (from the end), then shrink sizes, then simplify the configuration
         for i in range(len(ops) - 1, -1, -1):
-            out.append(" ".join(w[:2] + ops[:i] + ops[i + 1:]))
+            if i not in keep:
+                out.append(" ".join(w[:2] + ops[:i] + ops[i + 1:]))
         for i, op in enumerate(ops):
             p = op.split(":")
             if p[0] in ("sd", "w") and len(p) == 4 and int(p[2]) > 0:
@@ -818,7 +971,6 @@ class C17(Prop):
                 out.append(" ".join(w[:2] + ops[:i] + ["ub:%d:%s" % (int(p[1]) // 2, p[2])] + ops[i + 1:]))
                 if len(p) > 3:
                     out.append(" ".join(w[:2] + ops[:i] + [":".join(p[:3])] + ops[i + 1:]))
-        kv = w[1].split(",")
         for i, x in enumerate(kv):
             if x.split("=")[0] in ("skip", "sw", "cw", "tw", "split"):
                 out.append(" ".join([w[0], ",".join(kv[:i] + kv[i + 1:])] + ops))
